@@ -1215,7 +1215,7 @@ func genC05(c *Ctx) {
 
 // c05SizedCases: per object the raw DER (neutral and random name, CLI with file / pipe), the bare PEM
 // block and base64 on one line always; of the other presentations a sample that rotates from object
-// to object (quick: 3; thorough: 40 up to 8193 bytes, 16 up to 65537, 8 beyond), so that a run covers
+// to object (quick: 3; thorough: 32 up to 8193 bytes, 12 up to 65537, 8 at 128 KiB, 4 at 1 MiB), so that a run covers
 // every presentation at some size (thorough: at every size, over the seven kinds)
 func c05SizedCases(c *Ctx, objs []c05Obj) {
 	r := c.R
@@ -1229,7 +1229,9 @@ func c05SizedCases(c *Ctx, objs []c05Obj) {
 		refObs, _ := c05InspectFile(refPath)
 		c05RemoveFile(c, refPath)
 		c05Insp(c, kind+":der", "object.bin", o.der, refObs, true)
-		c05Insp(c, kind+":der-name", c05_randName(r), o.der, refObs, true)
+		if len(o.der) <= 131072 {
+			c05Insp(c, kind+":der-name", c05_randName(r), o.der, refObs, true)
+		}
 		c05PemBlock(c, "sz-label", c05Labels[o.kind], o.der)
 		pres := append(b64Presentations(o.der), pemPresentations(r, c05Labels[o.kind], o.der)...)
 		pres = append(pres, sizePresentations(c05Labels[o.kind], o.der, c.Thorough())...)
@@ -1254,11 +1256,13 @@ func c05SizedCases(c *Ctx, objs []c05Obj) {
 		n := 3
 		switch {
 		case c.Thorough() && len(o.der) <= 8193: // the seven kinds together cover every presentation at every size
-			n = 40
+			n = 32
 		case c.Thorough() && len(o.der) <= 65537:
-			n = 16
-		case c.Thorough():
+			n = 12
+		case c.Thorough() && len(o.der) <= 131072:
 			n = 8
+		case c.Thorough():
+			n = 4
 		}
 		for j := 0; j < n; j++ {
 			take[(pc+j*37)%len(pres)] = true
@@ -1284,7 +1288,7 @@ func c05SizedCases(c *Ctx, objs []c05Obj) {
 			}
 		}
 		c05CLI(c, "sz-der", c05_randName(r), o.der)
-		if oi%3 == 0 || (c.Thorough() && len(o.der) <= 65537) {
+		if (!c.Thorough() && oi%3 == 0) || (c.Thorough() && len(o.der) <= 65537) {
 			c05ReadLimit(c, o, refObs)
 		}
 	}
